@@ -84,7 +84,7 @@ def dumpVec (k : Nat) (ov : Option Vec) : String :=
   match ov with
   | none => s!"v{k} none"
   | some v =>
-    let head := s!"v{k} size={v.size} cap={v.cap} empty={b2s (v.size == 0)} units={v.units} blk={optNat v.blk} alloc={v.alloc}"
+    let head := s!"v{k} size={v.size} cap={v.cap} empty={b2s (v.size == 0)} units={v.units} blk={optNat v.blk} alloc={v.alloc} fs={joinNat (fixedSizesOf v.ps v.fs)}"
     if v.blk.isNone then head else
     let loc := if v.fixedLoc then s!" loc=fix:{v.loc.count}/{v.loc.stride}"
                else s!" loc=var:{joinNat ((List.range v.loc.size).map v.loc.slots)}/{v.loc.last} tbl={optNat v.tbl}"
